@@ -91,7 +91,7 @@ __CPROVER_ensures((g_popped_fn + g_stop_popped) - (__CPROVER_old(g_popped_fn) + 
 __CPROVER_ensures(!*self->cap_steal_success ==> (g_popped_fn == __CPROVER_old(g_popped_fn) && g_stop_popped == __CPROVER_old(g_stop_popped)))
 ;
 //@loop Pool_keep_execute_lambda_executor_keep_execute_1_op_call 1
-//@  __CPROVER_assigns(@p1@, *self->cap_steal_success, *self->cap_task, g_popped_fn, g_popped_focus, g_stop_popped)
+//@  __CPROVER_assigns(@p1:iter@, *self->cap_steal_success, *self->cap_task, g_popped_fn, g_popped_focus, g_stop_popped)
 //@  __CPROVER_loop_invariant(!*self->cap_steal_success && g_popped_fn == __CPROVER_loop_entry(g_popped_fn) && g_popped_focus == __CPROVER_loop_entry(g_popped_focus) && g_stop_popped == __CPROVER_loop_entry(g_stop_popped))
 //@end
 /* worker loop */
@@ -135,9 +135,9 @@ __CPROVER_ensures(__CPROVER_old(p->_running) ==> (g_balance_joins == (g_balance_
 __CPROVER_ensures((__CPROVER_old(p->_running) && g_nthreads > 0) ==> (g_pushed_type == T_STOP && g_pushed_q == &p->_global_task_queue))
 ;
 //@loop Pool_stop 1
-//@  __CPROVER_assigns(@l1@, g_push_global, g_pushed_task, g_pushed_q, g_pushed_type, g_pushed_fid, g_pushed_before_balance_join, g_task_dtor)
-//@  __CPROVER_loop_invariant(@l1@ <= g_nthreads && g_push_global == @l1@ && g_task_dtor == @l1@ && !g_pushed_before_balance_join && (@l1@ > 0 ==> (g_pushed_type == T_STOP && g_pushed_q == &self->_global_task_queue)))
-//@  __CPROVER_decreases(g_nthreads - @l1@)
+//@  __CPROVER_assigns(@l1:i@, g_push_global, g_pushed_task, g_pushed_q, g_pushed_type, g_pushed_fid, g_pushed_before_balance_join, g_task_dtor)
+//@  __CPROVER_loop_invariant(@l1:i@ <= g_nthreads && g_push_global == @l1:i@ && g_task_dtor == @l1:i@ && !g_pushed_before_balance_join && (@l1:i@ > 0 ==> (g_pushed_type == T_STOP && g_pushed_q == &self->_global_task_queue)))
+//@  __CPROVER_decreases(g_nthreads - @l1:i@)
 //@end
 //@loop Pool_stop 2
 //@  __CPROVER_assigns(g_it, g_joins)
